@@ -110,7 +110,7 @@ func checkC18(c *Ctx) {
 				ci := in.(ssa.CallInstruction)
 				gs := p.Guards(in)
 				where := p.InstrPos(in)
-				key := f.Name() + ":" + m
+				key := fnName(f) + ":" + m
 				lower := actionLabel[m]
 				if f == mover {
 					okG := hasActionGuard(gs, true, nil, lower)
@@ -242,7 +242,7 @@ func checkC18(c *Ctx) {
 			}
 		}}
 		wk.Run()
-		c.Check(!wk.Aborted && maxN == 1 && zeroOK, "R3", "one-action-per-path:"+f.Name(), p.Pos(f.Pos()), "exactly one action / hand-off per path", fmt.Sprintf("%s submits %d..%d actions on a path (silent path allowed only when no action is allowed: %v)", f.Name(), minN, maxN, zeroOK))
+		c.Check(!wk.Aborted && maxN == 1 && zeroOK, "R3", "one-action-per-path:"+fnName(f), p.Pos(f.Pos()), "exactly one action / hand-off per path", fmt.Sprintf("%s submits %d..%d actions on a path (silent path allowed only when no action is allowed: %v)", fnName(f), minN, maxN, zeroOK))
 	}
 	// the timer closure hands off to the chooser exactly once, unless cancelled
 	for _, cl := range mover.AnonFuncs {
@@ -297,12 +297,12 @@ func checkC18(c *Ctx) {
 					}
 					l, r := s.Args[0].Strip(), s.Args[1].Strip()
 					opName := s.Name
-					if r.IsField(bot.Obj().Name(), "lastGameStateTime") && l.Kind == "field" && l.Name == "UpdatedAt" {
+					if r.IsField(canonTypeName(bot.Obj()), "lastGameStateTime") && l.Kind == "field" && l.Name == "UpdatedAt" {
 						// `gs.UpdatedAt <= br.lastGameStateTime` is `br.lastGameStateTime >= gs.UpdatedAt`
 						l, r = r, l
 						opName = map[string]string{"<": ">", ">": "<", "<=": ">=", ">=": "<="}[opName]
 					}
-					if !(l.IsField(bot.Obj().Name(), "lastGameStateTime") && r.Kind == "field" && r.Name == "UpdatedAt") {
+					if !(l.IsField(canonTypeName(bot.Obj()), "lastGameStateTime") && r.Kind == "field" && r.Name == "UpdatedAt") {
 						continue
 					}
 					staleSucc := -1
@@ -325,7 +325,7 @@ func checkC18(c *Ctx) {
 			// … and the time of the view acted on is remembered before acting
 			var rem []ssa.Instruction
 			for _, ss := range p.Stores([]*ssa.Function{entry}) {
-				if ss.Owner == bot.Obj().Name() && ss.Field == "lastGameStateTime" && ss.Val.Strip().Kind == "field" && ss.Val.Strip().Name == "UpdatedAt" {
+				if ss.Owner == canonTypeName(bot.Obj()) && ss.Field == "lastGameStateTime" && ss.Val.Strip().Kind == "field" && ss.Val.Strip().Name == "UpdatedAt" {
 					rem = append(rem, ss.Instr)
 				}
 			}
@@ -347,7 +347,7 @@ func checkC18(c *Ctx) {
 			c.Check(okRem, "R6", "silence:view-time-remembered", where, "lastGameStateTime ← UpdatedAt for every non-stale view with a hand state, before the move request", "the bot does not remember the time of the view it acts on: the same view would be acted on again")
 			// own index passed on
 			a := p.Sym(ci.Common().Args[2]).Strip()
-			c.Check(a.IsCall("Table.GamePlayerIndex") && a.Args[1].Strip().IsField(bot.Obj().Name(), "playerID"), "R6", "own-hand-index", where, "acts for its own hand index", "the bot acts for hand index "+a.String())
+			c.Check(a.IsCall("Table.GamePlayerIndex") && a.Args[1].Strip().IsField(canonTypeName(bot.Obj()), "playerID"), "R6", "own-hand-index", where, "acts for its own hand index", "the bot acts for hand index "+a.String())
 		}
 	}
 }
@@ -478,7 +478,7 @@ func checkActionForwarding(c *Ctx) {
 		hasID := false
 		if st, ok := t.Underlying().(*types.Struct); ok {
 			for i := 0; i < st.NumFields(); i++ {
-				if st.Field(i).Name() == "playerID" && st.NumFields() == 2 {
+				if typeShort(st.Field(i).Type()) == "string" && st.NumFields() == 2 {
 					hasID = true
 				}
 			}
@@ -505,7 +505,7 @@ func checkActionForwarding(c *Ctx) {
 					continue
 				}
 				id := p.Sym(cm.Args[0]).Strip()
-				good := id.IsField(t.Obj().Name(), "playerID") && len(cm.Args) == len(f.Params)
+				good := id.Kind == "field" && id.Owner == canonTypeName(t.Obj()) && symType(id) == "string" && len(cm.Args) == len(f.Params)
 				for i := 1; i < len(cm.Args) && good; i++ {
 					if !symIsParam(p.Sym(cm.Args[i]), f.Params[i]) {
 						good = false
